@@ -2595,3 +2595,16 @@ for _P, _R in (("C01", "R1.23"), ("C05", "R5.16")):
       "    if previous_puml_node == logic_list[-1].start_node:",
       "    if isinstance(previous_puml_node, PUMLOperatorNode):", _R,
       "a walked path that sits on a nested block's END operator is started again (seed C05-n)")
+
+# ============================================================ wave p
+for _P, _R in (("C07", "R7.20"), ("C01", "R1.24")):
+    M(_P, "overlap-needs-two-sets", EV,
+      "    graph: \"Graph[str]\" = Graph()\n    for event_set in event_sets:\n        if len(event_set) > 1:",
+      "    graph: \"Graph[str]\" = Graph()\n    if len(event_sets) < 2:\n        return set()\n    for event_set in event_sets:\n        if len(event_set) > 1:",
+      _R, "an event with a single successor set gets no overlap group (seed C01-p)")
+MM("C04", "model-dict-shared-between-workflows", [
+    (P2P, "        events: dict[str, Event] = {}\n        if job_name in events_to_jobs_map:",
+          "        if job_name in events_to_jobs_map:"),
+    (P2P, "    for job_name, job_event_gen in pv_streams:\n",
+          "    events: dict[str, Event] = {}\n    for job_name, job_event_gen in pv_streams:\n")], "R4.4",
+  "one dict is handed from workflow to workflow (seed C04-p)")
